@@ -4,6 +4,7 @@ from rules import hdr_tolerant as r_hdrt
 from rules import wr_frame as r_wrf
 from rules import si as r_si
 from rules import hdr_num as r_num
+from rules import sec as r_sec
 
 PROPS = {}
 
@@ -158,3 +159,30 @@ prop("C08",
      technique="regex-language inclusion by DFA product + guard dominance on the CFG + truth-table folding of the exemption",
      level_text="Static guarantee for all strings over the probe alphabet that only decimal literals can reach a number "
                 "constructor, and for all listed name spellings that API/UWI are exempt; numeric equality is trusted to numpy.")
+
+prop("C05",
+     [r_sec.rule_scan, r_sec.rule_convention, r_sec.rule_end_test, r_sec.rule_case, r_sec.rule_steer,
+      r_sec.rule_title_pred, r_sec.rule_route, r_sec.rule_reseek],
+     "Section-interval analysis. The title scan tests every line it reads (every readline() is assigned to the scanned "
+     "variable, no nested consumption), advances its counter once per line and records a section start under the title "
+     "predicate only (SEC.SCAN); all recorded section ends have the same offset from the boundary line (affine "
+     "normalisation of the appended expressions: boundary-1, i.e. inclusive) and the fast engine's skip_header/max_rows "
+     "are the matching affine forms first+1 / last-first (SEC.CONVENTION); each of the four section-bounded loops "
+     "(header items, ~Other, column sniffer, reference engine) iterates the file object itself, advances its line "
+     "counter exactly once per iteration and evaluates `counter == last` on every path back to the loop head, after the "
+     "line was processed (CFG path queries; SEC.END-TEST); every predicate that classifies a title by one of the six "
+     "documented letters folds to the same value for ~X and ~x over 63 probe-title pairs (SEC.CASE); the stores of the "
+     "provisional VERS/WRAP/DLM resp. NULL are control-dependent on title tests that fold true exactly for letter V "
+     "resp. W (SEC.STEER); every title test is startswith('~') on a fully stripped value (reaching definitions; "
+     "SEC.TITLE-PRED); each parsed header section is stored into self.sections exactly once and, by truth table over "
+     "probe titles, under the key that matches the kind SectionParser parses it as, custom sections under their own "
+     "title (SEC.ROUTE); every section consumer in LASFile.read is entered only after a seek to a section offset "
+     "(explicit-state search with string-constant path sensitivity; SEC.RESEEK). Not decided: that no line is dropped "
+     "or duplicated for every permutation and size, seek/tell cookie correctness.",
+     COMMON_ASSUMPTIONS + ["probe titles of rules/sec.py represent the title spellings (letter only, words, trailing text)"],
+     "DESIGN.md section 4, C05 and shared rule group SEC",
+     technique="CFG path queries on section-bounded loops + affine normalisation of line arithmetic + truth-table folding "
+               "of title predicates + control dependence of steering stores",
+     level_text="Static guarantee of the structural clauses (one interval convention, end test on every iteration, "
+                "case-insensitive letters, steering only from ~V/~W, routing agrees with parsing, re-seek before every "
+                "consumer) on the analysed source; attribution of every concrete line is not executed.")
